@@ -26,7 +26,7 @@ META = {
                     "Parseval and the Wiener-Khinchin identity sum_m r[m] z^m = |X(z)|^2/N are consequences of the proved "
                     "formulas by DFT algebra over the specification; they are not re-proved (code independent)"],
     "bounded_note": "parseval.* and wiener-khinchin.* are bounded (N <= 4, NFFT in {3, 4, 6}; up to N = 5, NFFT = 12 thorough), all data and window values at those sizes; everything else is unbounded",
-    "trusted_base": [],
+    "trusted_base": ["sympy.polys (bounded exact-algebra tasks only)"],
 }
 
 
